@@ -289,6 +289,23 @@ impl SessionManager {
         }))
     }
 
+    /// `(entries, sum, max, tracked sessions)` of the per-(cluster, source-IP)
+    /// bookkeeping, for the external monitors
+    #[cfg(feature = "verif-hooks")]
+    pub fn verif_per_ip_footprint(&self) -> (usize, usize, usize, usize) {
+        let mut entries = 0;
+        let mut total = 0;
+        let mut max = 0;
+        for per_ip in self.connections_per_cluster_ip.values() {
+            for count in per_ip.values() {
+                entries += 1;
+                total += *count;
+                max = max.max(*count);
+            }
+        }
+        (entries, total, max, self.cluster_ip_tracks.len())
+    }
+
     /// Resolve the effective per-(cluster, source-IP) limit. `override_value`
     /// is the cluster-level setting from the proto `Cluster` message:
     /// `None` inherits the global default, `Some(0)` is explicit
@@ -1228,9 +1245,60 @@ impl Server {
                 (*metrics.borrow_mut()).send_data();
             });
 
+            #[cfg(feature = "verif-hooks")]
+            self.verif_loop_snapshot();
+
             if self.shutting_down.is_some() && self.shut_down_sessions() {
+                #[cfg(feature = "verif-hooks")]
+                crate::verif::event("exit", "soft".to_owned());
                 return;
             }
+        }
+    }
+
+    /// Publish this iteration's bookkeeping to the external monitors
+    #[cfg(feature = "verif-hooks")]
+    fn verif_loop_snapshot(&self) {
+        let sessions = self.sessions.borrow();
+        let mut backends = Vec::new();
+        for (cluster_id, list) in self.backends.borrow().backends.iter() {
+            for backend in list.backends.iter() {
+                let backend = backend.borrow();
+                backends.push(crate::verif::BackendSnapshot {
+                    cluster_id: cluster_id.to_owned(),
+                    backend_id: backend.backend_id.to_owned(),
+                    address: backend.address.to_string(),
+                    active_connections: backend.active_connections,
+                    active_requests: backend.active_requests,
+                });
+            }
+        }
+        backends.sort_by(|a, b| {
+            (&a.cluster_id, &a.backend_id, &a.address).cmp(&(
+                &b.cluster_id,
+                &b.backend_id,
+                &b.address,
+            ))
+        });
+        let per_ip = sessions.verif_per_ip_footprint();
+        crate::verif::loop_snapshot(crate::verif::LoopSnapshot {
+            iteration: 0,
+            nb_connections: sessions.nb_connections,
+            max_connections: sessions.max_connections,
+            can_accept: sessions.can_accept,
+            slab_len: sessions.slab.len(),
+            base_sessions_count: self.base_sessions_count,
+            pool_used: self.pool.borrow().inner.used(),
+            accept_queue_len: self.accept_queue.len(),
+            per_cluster_ip_entries: per_ip.0,
+            per_cluster_ip_total: per_ip.1,
+            per_cluster_ip_max: per_ip.2,
+            cluster_ip_tracks: per_ip.3,
+            shutting_down: self.shutting_down.is_some(),
+            backends,
+        });
+        if crate::verif::dump_requested() {
+            crate::verif::publish_state_dump(self.config_state.clone());
         }
     }
 
@@ -1512,6 +1580,9 @@ impl Server {
                 .expect("should have shut down correctly"); // panicking here makes sense actually
 
             debug!("Responding OK to main process for request {}", id);
+
+            #[cfg(feature = "verif-hooks")]
+            crate::verif::event("soft_stop_ack", id.clone());
 
             let proxy_response = WorkerResponse::ok(id);
             if let Err(e) = self.channel.write_message(&proxy_response) {
@@ -2900,6 +2971,8 @@ impl Server {
                     // peer raced to close — recorded as `None` and silently
                     // skipped for the per-source counter.
                     let peer = sock.peer_addr().ok();
+                    #[cfg(feature = "verif-hooks")]
+                    crate::verif::event("accept", format!("{} {:?}", token.0, sock.local_addr().ok()));
                     incr!(names::listener::ACCEPTED_TOTAL);
                     incr!(proto_key);
                     if let Some(peer_addr) = peer.as_ref() {
